@@ -96,6 +96,33 @@ def run(ctx):
                          dict(estimator=name, params=opt, d_first=d, d_second=d2, X_second=data2['X'].tolist()))
       ctx.seen((name, repr(sorted(opt.items())), rnd), True)
       ctx.sample(dict(estimator=name, params=opt, components_shape=list(L.shape)), limit=5)
+  # ---- the unit the features are measured in: the same well-formed data in units of 2^6, 2^10 and 2^-10 still give a
+  # finite model of the right shape (transformation learners and closed forms; the tuple solvers' units are C11-C15's)
+  for name, kw, data in fits.zoo_specs(ctx.rng, variants=False, names=['NCA', 'MLKR', 'LMNN', 'LFDA', 'Covariance', 'RCA', 'RCA_Supervised']):
+    for c in (2.0 ** 6, 2.0 ** 10, 2.0 ** -10):
+      for init in ((None, 'identity', 'pca', 'random') if name in ('NCA', 'MLKR', 'LMNN') else (None,)):
+        kw2 = dict(kw)
+        if init is not None:
+          kw2['init'] = init
+        if name in ('NCA', 'MLKR', 'LMNN'):
+          kw2['max_iter'] = 8
+        data_c = dict(data)
+        data_c['X'] = data['X'] * c
+        ctx.count('units', 1)
+        try:
+          with warnings.catch_warnings():
+            warnings.simplefilter('ignore')
+            est = fits.make_estimator(name, kw2)
+            est.fit(*fits.fit_args(name, data_c))
+        except Exception as ex:
+          ctx.fail_input('fit_runs', '%s raises %s on data in units of 2^%d' % (name, type(ex).__name__, int(np.log2(c))),
+                         dict(estimator=name, params={k: str(v)[:30] for k, v in kw2.items()}, units=c, X=data_c['X'].tolist(), y=data['y'].tolist()),
+                         observed=str(ex)[:200])
+          continue
+        L = np.asarray(est.components_)
+        if L.ndim != 2 or L.shape[1] != data['d'] or L.shape[0] > data['d'] or L.dtype.kind != 'f' or not np.isfinite(L).all():
+          ctx.fail_input('components_real', '%s on data in units of 2^%d: components_ is not a finite real array of the right shape' % (name, int(np.log2(c))),
+                         dict(estimator=name, units=c, X=data_c['X'].tolist()), observed=str(L.shape))
   if ok:
     res = ctx.run_cases('c03', HEADER, terms, per_file=40)
     for r, rec in zip(res, recs):
